@@ -105,6 +105,30 @@ class Values:
         self._expr_busy: Set[Tuple[int, int]] = set()
         self._memo: Dict[Tuple[int, int], Val] = {}
         self._alive: List[Any] = []
+        self._viewing = False
+        # cycle cuts: a value computed while a request higher up the stack was answered with
+        # "nothing yet" is provisional and must not be memoised (it would depend on who asked first)
+        self._depth = 0
+        self._busy_depth: Dict[Tuple[int, Any], int] = {}
+        self._min_cut = 1 << 30
+
+    def _enter(self, busy: set, key) -> None:
+        self._depth += 1
+        self._busy_depth[(id(busy), key)] = self._depth
+        busy.add(key)
+
+    def _cut(self, busy: set, key) -> Val:
+        self._min_cut = min(self._min_cut, self._busy_depth.get((id(busy), key), 0))
+        return EMPTY
+
+    def _leave(self, busy: set, key) -> bool:
+        d = self._busy_depth.pop((id(busy), key), 0)
+        busy.discard(key)
+        self._depth -= 1
+        if self._min_cut < d:
+            return False  # depends on an unfinished request above this one
+        self._min_cut = 1 << 30
+        return True
 
     # ------------------------------------------------------------------ params
     def param_roles(self, unit: Unit, name: str) -> Set[str]:
@@ -166,7 +190,8 @@ class Values:
                 return res.qual
         return None
 
-    PLAIN_TYPES = {"bool", "int", "str", "float", "Optional[int]", "Optional[bool]"}
+    PLAIN_TYPES = {"bool", "int", "str", "float", "bytes", "Optional[int]", "Optional[bool]", "Optional[str]",
+                   "Optional[float]"}
 
     def is_plain(self, atom: Atom) -> bool:
         """('user', 'unit:param') of a parameter annotated with a plain builtin type:
@@ -297,13 +322,14 @@ class Values:
         if key in self._memo:
             return self._memo[key]
         if key in self._expr_busy:
-            return EMPTY
-        self._expr_busy.add(key)
+            return self._cut(self._expr_busy, key)
+        self._enter(self._expr_busy, key)
         try:
             val = self._def_value(unit, d, ident)
         finally:
-            self._expr_busy.discard(key)
-        self._memo[key] = val
+            keep = self._leave(self._expr_busy, key)
+        if keep:
+            self._memo[key] = val
         self._alive.append(d)
         return val
 
@@ -431,8 +457,8 @@ class Values:
         if key in self._memo:
             return self._memo[key]
         if key in self._expr_busy:
-            return EMPTY
-        self._expr_busy.add(key)
+            return self._cut(self._expr_busy, key)
+        self._enter(self._expr_busy, key)
         out: Set[Atom] = set()
         try:
             cfg = cfg_of(unit)
@@ -440,9 +466,10 @@ class Values:
                 if n.kind == "yield":
                     out |= self.expr(unit, n.info.get("value"), n)
         finally:
-            self._expr_busy.discard(key)
+            keep = self._leave(self._expr_busy, key)
         val = frozenset(out)
-        self._memo[key] = val
+        if keep:
+            self._memo[key] = val
         return val
 
     def returns(self, unit: Unit) -> Val:
@@ -451,8 +478,8 @@ class Values:
         if key in self._memo:
             return self._memo[key]
         if key in self._expr_busy:
-            return EMPTY
-        self._expr_busy.add(key)
+            return self._cut(self._expr_busy, key)
+        self._enter(self._expr_busy, key)
         out: Set[Atom] = set()
         try:
             cfg = cfg_of(unit)
@@ -464,9 +491,10 @@ class Values:
                    for p in cfg.nodes for lab, s in p.succ):
                 out.add(("none",))
         finally:
-            self._expr_busy.discard(key)
+            keep = self._leave(self._expr_busy, key)
         val = frozenset(out)
-        self._memo[key] = val
+        if keep:
+            self._memo[key] = val
         return val
 
     # ------------------------------------------------------------------ fields
@@ -475,8 +503,23 @@ class Values:
         if key in self._field_memo:
             return self._field_memo[key]
         if key in self._field_busy:
-            return EMPTY
-        self._field_busy.add(key)
+            return self._cut(self._field_busy, key)
+        # the value a private helper computes for a field is seen in the caller's context
+        # (asl.inline), not as the union over all of the helper's callers.  Views are built
+        # before the scan; a request made while one is under construction uses the plain methods.
+        views: Dict[int, Unit] = {}
+        degraded = self._viewing
+        if not degraded:
+            from .inline import inlined_view
+            self._viewing = True
+            try:
+                for info in self.mro(classqual):
+                    for meth in info.module.units.values():
+                        if meth.cls is info and meth.parent is None and not meth.is_overload():
+                            views[id(meth)] = inlined_view(self.pkg, self, meth)
+            finally:
+                self._viewing = False
+        self._enter(self._field_busy, key)
         out: Set[Atom] = set()
         try:
             for info in self.mro(classqual):
@@ -484,6 +527,7 @@ class Values:
                 for meth in info.module.units.values():
                     if meth.cls is not info:
                         continue
+                    meth = views.get(id(meth), meth)
                     cfg = cfg_of(meth)
                     for n in cfg.nodes:
                         if n.kind != "store":
@@ -508,7 +552,7 @@ class Values:
                                     val = self._destructure_attr(val, t, sub)
                                 out |= val
         finally:
-            self._field_busy.discard(key)
+            keep = self._leave(self._field_busy, key)
         # stores through other names (``state.current_group = ...`` in sibling classes)
         out |= self._foreign_stores(classqual, attr)
         if any(a[0] in ("fresh", "elems") for a in out):
@@ -526,7 +570,10 @@ class Values:
                 isinstance(x, ast.Attribute) and x.attr == attr for x in own_nodes(u.node))]
             out |= self._mutation_elems(cands[0] if cands else None, is_field, cands)  # type: ignore[arg-type]
         val = frozenset(out)
-        self._field_memo[key] = val
+        if degraded or not keep:
+            self._field_memo.pop(key, None)
+        else:
+            self._field_memo[key] = val
         return val
 
     def _destructure_attr(self, val: Val, target: ast.AST, sub: ast.AST) -> Val:
@@ -609,13 +656,14 @@ class Values:
         if key in self._memo:
             return self._memo[key]
         if key in self._expr_busy:
-            return EMPTY
-        self._expr_busy.add(key)
+            return self._cut(self._expr_busy, key)
+        self._enter(self._expr_busy, key)
         try:
             val = self._expr(unit, e, at)
         finally:
-            self._expr_busy.discard(key)
-        self._memo[key] = val
+            keep = self._leave(self._expr_busy, key)
+        if keep:
+            self._memo[key] = val
         # keep the keyed objects alive: rules evaluate temporary AST copies (inlined locals, stripped
         # casts), and a collected object's id() may be handed to a different expression later
         self._alive.append((e, at))
@@ -769,7 +817,7 @@ class Values:
             if attr == "__dict__":
                 return V(("instdict", classqual))
             if (classqual, lookup) in self._field_busy:
-                return EMPTY
+                return self._cut(self._field_busy, (classqual, lookup))
             val = self.field(classqual, lookup) if k != "cls" else EMPTY
             if val:
                 return val
